@@ -343,6 +343,18 @@ def gen_lap_exact(rng, hist):
             nbrs.append(o[:k] if k <= n - 1 else o)
         k = min(k, n - 1)
         nbrs = [l[:k] for l in nbrs]
+        # the ORDER of a neighbour list is free (cover tree: nearest first, brute force: nth_element order, VP-tree:
+        # farthest first); the specification is order-free, the model takes the list as given
+        order = rng.choice(["nearest_first", "farthest_first", "shuffled", "rotated"])
+        for l in nbrs:
+            if order == "farthest_first":
+                l.reverse()
+            elif order == "shuffled":
+                rng.shuffle(l)
+            elif order == "rotated" and l:
+                r_ = rng.randrange(len(l))
+                l[:] = l[r_:] + l[:r_]
+        style = "knn_line_" + order
     else:
         # symmetric table with zero diagonal: the property says d(x_i, x_j) of a DISTANCE; which argument
         # order the routine uses is left free
@@ -362,14 +374,37 @@ def gen_lap_exact(rng, hist):
                 l = l + [rng.randrange(n) for _ in range(rng.randint(0, 2))]   # only the first k are used
             nbrs.append(l)
     w = rng.choice([0.25, 0.5, 1.0, 2.0, 4.0, 8.0, 64.0, 2.0 ** -6])
-    mode = rng.choice([1, 1, 2])
+    # oracle modes: 1 = 2^-12 grid floored at 2^-12 (no weight vanishes), 3 = the same grid WITHOUT the floor (every
+    # pair with d^2/w above about 9 has the weight exactly 0.0, nearer pairs do not: an underflowed kernel), 2 = table
+    mode = rng.choice([1, 2, 2, 3, 3])
+    if mode == 3 and rng.random() < 0.7:
+        # aim the width at the middle of the listed distances so that SOME listed weights vanish and some do not
+        k0 = len(nbrs[0]) if nbrs else 0
+        ds = sorted(dist[i][j] for i in range(n) for j in nbrs[i][:k0] if j < n and dist[i][j] > 0)
+        if ds:
+            dm_ = ds[rng.randrange(len(ds))]
+            w = min([2.0 ** e for e in range(-8, 7)], key=lambda x: abs(math.log((dm_ * dm_ / 9.0) / x)))
     c = {"kind": "LAP", "mode": mode, "n": n, "w": w, "nbrs": nbrs, "dist": dist, "style": style}
     if mode == 2:
         args = sorted({-(d * d) / w for row in dist for d in row})
+        # table flavours (every sum the routine forms stays exact in binary64):
+        #   ordinary   a few dyadic values near 1
+        #   zeros      the same with exact zeros mixed in (weights that underflowed)
+        #   denormal   multiples of 2^-1074 (fixed point: sums of denormals are exact) and zeros
+        #   wide       2^0 .. 2^-40 and zeros (the sums span < 53 bits)
+        flavour = rng.choice(["ordinary", "zeros", "zeros", "denormal", "wide"])
+        pool = {"ordinary": [2.0 ** -e for e in range(0, 6)] + [0.75, 0.375, 0.3125, 1.5],
+                "zeros": [2.0 ** -e for e in range(0, 6)] + [0.75, 0.375, 0.3125, 1.5] + [0.0] * 8,
+                "denormal": [m_ * 2.0 ** -1074 for m_ in (1, 1, 2, 3, 5, 8, 2 ** 20, 2 ** 30 + 1)] + [0.0] * 4,
+                "wide": [2.0 ** -e for e in (0, 0, 10, 20, 30, 35, 40)] + [3 * 2.0 ** -40, 0.0, 0.0]}[flavour]
         vals = {}
         for a in args:
-            vals[a] = rng.choice([2.0 ** -e for e in range(0, 6)] + [0.75, 0.375, 0.3125, 1.5])
+            vals[a] = rng.choice(pool)
         c["table"] = [[a, vals[a]] for a in args]
+        if flavour != "ordinary":
+            c["style"] = style = style + "_table_" + flavour
+    elif mode == 3:
+        c["style"] = style = style + "_grid_with_zeros"
     hist["lap_exact_" + style] = hist.get("lap_exact_" + style, 0) + 1
     return c
 
@@ -584,8 +619,131 @@ def gen_lap_tol(rng, hist):
     m = sorted(x for row in dist for x in row if x > 0)
     med2 = m[len(m) // 2] ** 2
     w = med2 * 10 ** rng.uniform(-1.2, 3)          # widths over four decades around the median squared distance
+    if rng.random() < 0.6:
+        style += "_" + reorder_lists(rng, nbrs)
     hist["lap_tol_" + style] = hist.get("lap_tol_" + style, 0) + 1
     return {"kind": "LAP", "mode": 0, "n": n, "w": w, "nbrs": nbrs, "dist": dist, "style": style}
+
+
+def reorder_lists(rng, nbrs, order=None):
+    """the ORDER in which a neighbour search lists the k neighbours is not part of its contract: cover tree nearest
+    first, brute force std::nth_element order, VP-tree farthest first.  In place; returns the order used."""
+    order = order or rng.choice(["nearest_first", "farthest_first", "shuffled", "nth_element_like"])
+    for l in nbrs:
+        if order == "farthest_first":
+            l.reverse()
+        elif order == "shuffled":
+            rng.shuffle(l)
+        elif order == "nth_element_like" and len(l) >= 2:
+            # the k-th nearest in its final place, the nearer ones before it in arbitrary order
+            head = l[:-1]
+            rng.shuffle(head)
+            cut = rng.randrange(len(l))
+            l[:] = head[:cut] + [l[-1]] + head[cut:] if rng.random() < 0.5 else head + [l[-1]]
+    return order
+
+
+def lattice_points(rng, n, shape, jit):
+    """n points that form ONE component under short links: a jittered line, grid or circle arc (unit spacing)"""
+    if shape == "grid":
+        a = rng.choice([x for x in (2, 3, 4) if x * x <= n] or [1])
+        pts = [[float(i % a), float(i // a)] for i in range(n)]
+    elif shape == "arc":
+        rad = n / rng.uniform(2.0, 5.0)
+        pts = [[rad * math.cos(i / rad), rad * math.sin(i / rad)] for i in range(n)]
+    else:
+        pts = [[float(i), 0.0] for i in range(n)]
+    pts = [[x + rng.uniform(-jit, jit) for x in p] for p in pts]
+    rng.shuffle(pts)
+    return pts
+
+
+def bottleneck(dist):
+    """largest edge of a minimum spanning tree: the smallest r such that links of length <= r connect everything"""
+    n = len(dist)
+    best = [dist[0][j] for j in range(n)]
+    done = [False] * n
+    done[0] = True
+    b = 0.0
+    for _ in range(n - 1):
+        j = min((x for x in range(n) if not done[x]), key=lambda x: best[x])
+        b = max(b, best[j])
+        done[j] = True
+        for x in range(n):
+            if not done[x] and dist[j][x] < best[x]:
+                best[x] = dist[j][x]
+    return b
+
+
+def heat_float(d, w):
+    try:
+        return math.exp(-(d * d) / w)
+    except (OverflowError, ZeroDivisionError):
+        return 0.0
+
+
+def gen_underflow(rng, hist, routine):
+    """kernel narrow against the k-neighbourhood: the heat weights of the FARTHEST listed neighbours underflow to
+    exactly 0.0 (or to a denormal) while the nearer ones keep non-zero weights that still connect all samples
+    (model-guided: own k-NN, minimum-spanning-tree bottleneck b, width = b^2 / U with U in 5 .. 300, so the weakest
+    link that matters is exp(-U) and every listed pair beyond b sqrt(745 / U) has weight 0).  Routine level: the lists
+    are handed over nearest first / farthest first / shuffled / in nth_element-like order.  Public API: the three
+    neighbour searches (they list the same neighbours in different orders)."""
+    for _ in range(300):
+        n = rng.choice([5, 6, 8, 10] if routine else [8, 10, 12, 14, 16, 20, 24])
+        shape = rng.choice(["line", "line", "grid", "arc"])
+        jit = rng.choice([0.002, 0.01, 0.05, 0.15])
+        pts = lattice_points(rng, n, shape, jit)
+        dist = euclid(pts)
+        k = rng.randint(2 if routine else 3, n - 1)
+        nb = own_knn(dist, k)
+        b = bottleneck(dist)
+        U = 10 ** rng.uniform(0.7, 2.48)
+        if routine and rng.random() < 0.25:
+            U = rng.uniform(600.0, 744.0)          # the connecting weights themselves are near the bottom of binary64
+        w = b * b / U
+        H = [[heat_float(dist[i][j], w) for j in range(n)] for i in range(n)]
+        listed = [H[i][j] for i in range(n) for j in nb[i]]
+        nz = sum(1 for h in listed if h == 0.0)
+        if nz == 0 or nz == len(listed):
+            continue
+        W = [[0.0] * n for _ in range(n)]
+        for i in range(n):
+            for j in nb[i]:
+                W[i][j] += H[i][j]
+                W[j][i] += H[i][j]
+        deg = [sum(r) for r in W]
+        if min(deg) <= 0:
+            continue
+        if not routine:
+            if max(deg) / min(deg) > 3e3:
+                continue
+            # own estimate of the second pencil eigenvalue (generator side only): judged cases need it resolved
+            S = [[((deg[i] if i == j else 0.0) - W[i][j]) / math.sqrt(deg[i] * deg[j]) for j in range(n)] for i in range(n)]
+            ev = jacobi_eigenvalues(S)
+            if ev[1] < 1e-7:
+                continue
+        sc = rng.choice([1.0, 1.0, 3.0, 0.1, 7.5e3, 1.3e-4])      # joint rescaling: the same weights
+        dist = [[x * sc for x in row] for row in dist]
+        w2 = w * sc * sc
+        if [[heat_float(dist[i][j], w2) == 0.0 for j in range(n)] for i in range(n)] != \
+                [[H[i][j] == 0.0 for j in range(n)] for i in range(n)]:
+            continue                                              # rounding moved a weight across the underflow edge
+        frac = "%d%%" % (10 * int(10.0 * nz / len(listed)))
+        if routine:
+            order = reorder_lists(rng, nb)
+            key = "lap_tol_underflow_%s_zero_weights_~%s" % (order, frac)
+            hist[key] = hist.get(key, 0) + 1
+            return {"kind": "LAP", "mode": 0, "n": n, "w": w2, "nbrs": nb, "dist": dist,
+                    "style": "underflow_" + order}
+        nm = rng.choice([0, 1, 2])
+        d = rng.randint(1, min(5, n - 2))
+        key = "le_underflow_%s_zero_weights_~%s" % (["brute", "vptree", "covertree"][nm], frac)
+        hist[key] = hist.get(key, 0) + 1
+        return {"kind": "LE", "n": n, "k": k, "d": d, "w": w2, "em": 0, "cc": rng.choice([0, 1]), "nm": nm,
+                "dist": dist, "style": "underflow_farthest_neighbours", "zero_listed_weights": nz,
+                "listed_weights": len(listed)}
+    return gen_lap_tol(rng, hist) if routine else gen_le(rng, hist)
 
 
 def gen_dm_exact(rng, hist):
@@ -714,7 +872,12 @@ def gen_le(rng, hist, big=False):
     w = med2 * 10 ** rng.uniform(-1, 3)
     cc = 0 if rng.random() < 0.25 else 1           # check_connectivity: the library's default is true
     hist["le_" + style] = hist.get("le_" + style, 0) + 1
-    return {"kind": "LE", "n": n, "k": k, "d": d, "w": w, "em": 0, "cc": cc, "nm": 0, "dist": dist, "style": style}
+    # the three neighbour searches list the same neighbours in different ORDERS (generic points: no ties; the
+    # tie-heavy metric inputs stay with the deterministic exhaustive search: which tied neighbour a tree returns is
+    # free and may depend on the state of std::rand, finding C12-vptree-tied-neighbours-depend-on-rand-state)
+    nm = 0 if style.startswith("metric") else rng.choice([0, 0, 1, 2])
+    hist["le_search_" + ["brute", "vptree", "covertree"][nm]] = hist.get("le_search_" + ["brute", "vptree", "covertree"][nm], 0) + 1
+    return {"kind": "LE", "n": n, "k": k, "d": d, "w": w, "em": 0, "cc": cc, "nm": nm, "dist": dist, "style": style}
 
 
 def gen_le_clustered(rng, hist):
@@ -739,8 +902,8 @@ def gen_le_clustered(rng, hist):
         d = rng.randint(1, min(5, n - 2))
         w = sep * sep * 10 ** rng.uniform(-0.3, 1.0)
         hist["le_clustered_k_must_be_raised"] = hist.get("le_clustered_k_must_be_raised", 0) + 1
-        return {"kind": "LE", "n": n, "k": k, "d": d, "w": w, "em": 0, "cc": 1, "nm": 0, "dist": dist,
-                "style": "clustered_k_raised"}
+        return {"kind": "LE", "n": n, "k": k, "d": d, "w": w, "em": 0, "cc": 1, "nm": rng.choice([0, 0, 1, 2]),
+                "dist": dist, "style": "clustered_k_raised"}
     return gen_le(rng, hist)
 
 
@@ -1116,8 +1279,9 @@ def gen_le_weak(rng, hist, routine=False):
             return {"kind": "LAP", "mode": 0, "n": n, "w": w2, "nbrs": nb, "dist": dist, "style": "weak_clusters"}
         d = rng.randint(1, min(5, n - 2))
         hist["le_weak_clusters_lambda2_~" + bucket] = hist.get("le_weak_clusters_lambda2_~" + bucket, 0) + 1
-        return {"kind": "LE", "n": n, "k": k, "d": d, "w": w2, "em": 0, "cc": rng.choice([0, 1, 1]), "nm": 0,
-                "dist": dist, "style": "weak_clusters", "clusters": g, "lambda2_estimate": est}
+        return {"kind": "LE", "n": n, "k": k, "d": d, "w": w2, "em": 0, "cc": rng.choice([0, 1, 1]),
+                "nm": rng.choice([0, 0, 1, 2]), "dist": dist, "style": "weak_clusters", "clusters": g,
+                "lambda2_estimate": est}
     return gen_lap_tol(rng, hist) if routine else gen_le(rng, hist)
 
 
@@ -1237,7 +1401,7 @@ def eval_lap(ctx, mexe, cases, impl, st):
                        "pair (oracle miss -> NaN)")
             ctx.violation(public_case(c), why)
             continue
-        if c["mode"] in (1, 2) and not r.get("calls"):
+        if c["mode"] in (1, 2, 3) and not r.get("calls"):
             # the library no longer goes through the interposed oracle: compare on the tolerance stream instead
             st.skip("lap_oracle_bypassed")
             c2 = dict(c, mode=0, exact_fallback=True)
@@ -1311,7 +1475,7 @@ def eval_lap(ctx, mexe, cases, impl, st):
         if n >= 3 and len(c["nbrs"][0]) >= 1:
             st.nontrivial.add(case_hash(c))
         # oracle contract on the observed calls (exact modes): every argument is -(d^2)/w of a used pair
-        if c["mode"] in (1, 2) and r.get("calls") is not None:
+        if c["mode"] in (1, 2, 3) and r.get("calls") is not None:
             k = len(c["nbrs"][0])
             want = sorted(-(c["dist"][a][b] * c["dist"][a][b]) / c["w"] for a in range(n) for b in c["nbrs"][a][:k])
             got = sorted(a for a, _ in r["calls"])
@@ -1995,6 +2159,7 @@ def make_cases(rng, hist, tier, search=False, want=("rt", "api")):
     n_le, n_lec, n_dmap, n_dmm, n_dmr = (28, 8, 22, 14, 6) if quick else (220, 40, 200, 60, 30)
     n_lew, n_dmw, n_rtw = (10, 8, 5) if quick else (80, 60, 40)       # weakly coupled clusters (wave 3)
     n_dfl, n_huge = (8, 6) if quick else (60, 40)                     # defaults left unset, huge magnitudes (wave 3)
+    n_ufl_rt, n_ufl_api = (12, 12) if quick else (80, 90)             # farthest neighbours' weights underflow (wave 4)
     cases = []
     if "rt" in want:
         cases += [gen_lap_exact(rng, hist) for _ in range(n_lap_e)]
@@ -2003,10 +2168,12 @@ def make_cases(rng, hist, tier, search=False, want=("rt", "api")):
         cases += [gen_dm_exact(rng, hist) for _ in range(n_dm_e)]
         cases += [gen_dm_exact_nonuniform(rng, hist) for _ in range(6 if quick else 30)]
         cases += [gen_dm_tol(rng, hist) for _ in range(n_dm_t)]
+        cases += [gen_underflow(rng, hist, True) for _ in range(n_ufl_rt)]
         cases += [gen_le_weak(rng, hist, routine=True) for _ in range(n_rtw)]
         cases += [gen_dm_weak(rng, hist, routine=True) for _ in range(3 if quick else 24)]
     if "api" in want:
         cases += boundary_cases(rng, hist)
+        cases += [gen_underflow(rng, hist, False) for _ in range(n_ufl_api)]
         cases += [gen_le_weak(rng, hist) for _ in range(n_lew)]
         cases += [gen_dm_weak(rng, hist) for _ in range(n_dmw)]
         cases += [gen_api_defaults(rng, hist) for _ in range(n_dfl)]
